@@ -168,7 +168,7 @@ fn main() {
             }
         }
         // the costliest scenarios (Rescue hashing, the largest shapes) deviate under two pool sizes only
-        let costly = ["rp64", "n8192", "2048x17"].iter().any(|t| sc.name.contains(t));
+        let costly = ["rp64", "n8192", "2048x17", "4096x33", "128x100"].iter().any(|t| sc.name.contains(t));
         let dev_pools: Vec<usize> = if !thorough { vec![3] } else if costly { vec![3, 64] } else { vec![1, 2, 3, 8, 64] };
         for &pool in dev_pools.iter() {
             let base = Sched { pool, default_order: Order::Identity, deviations: BTreeMap::new(), find_any_choice: 0 };
@@ -176,7 +176,8 @@ fn main() {
             for (r, k) in regions.iter().enumerate() {
                 let m = menu(*k, thorough && !heavy);
                 // heavy scenarios: a thinner menu per region
-                let m: Vec<Order> = if heavy && !thorough { m.into_iter().take(6).collect() } else { m };
+                let wide = ["x20", "x50", "x100", "x33"].iter().any(|t| sc.name.ends_with(t));
+                let m: Vec<Order> = if (heavy || wide) && !thorough { m.into_iter().take(6).collect() } else { m };
                 for o in m {
                     let mut s = base.clone();
                     s.deviations.insert(r, o);
